@@ -86,6 +86,12 @@ class MuxWorld(World):
             for r in regs:
                 r["size"] = (r["w"] + dw - 1) // dw
             aw = max(aw, 4)
+        if rng.chance(0.06):
+            # many one-word registers: with no sharing limit they all share one shadow chunk
+            al = 0
+            aw = max(aw, 5)
+            regs = [{"w": rng.choice([1, max(1, dw - 1), dw]), "acc": rng.choice(["r", "rw", "rw", "w"]),
+                     "size": 1, "align": None, "addr": None} for _ in range(rng.range(7, 16))]
         if rng.chance(0.04):
             # wide map, registers far apart: the shadow has to grow a lot to separate them
             aw = rng.choice([16, 24, 32, 40, 48])
